@@ -27,7 +27,12 @@ for pid, own, n in [("C02", "ign", 32), ("C09", "ign", 32), ("C10", "own", 32), 
 for pid, own in [("C02", "ign"), ("C09", "ign"), ("C10", "own")]:
     add("%s__t__dec_sym64" % pid.lower(), 67, own, "dec::sym::<_, %s, 64>" % pid)
     for n in [128, 255, 256, 257, 258, 259]:
-        add("%s__t__dec_len%d" % (pid.lower(), n), n + 3, own, "dec::conc::<_, %s, %d>" % (pid, n))
+        # the SMBus maximum (259 bytes, byte count 255) is a boundary of its own: quick tier
+        add("%s__%s__dec_len%d" % (pid.lower(), "q" if n == 259 else "t", n), n + 3, own, "dec::conc::<_, %s, %d>" % (pid, n))
+# history / buffer-identity independence of the decoder
+add("c09__q__dec_twice16", 20, "ign", "hist::dec_twice::<_, C09, 16>")
+add("c02__q__dec_twice16", 20, "ign", "hist::dec_twice::<_, C02, 16>")
+add("c09__t__dec_twice32", 36, "ign", "hist::dec_twice::<_, C09, 32>")
 # seed-chosen spot lengths: tier "s" — the driver runs exactly one per (property, group), index VERIF_SEED % count
 for pid, own in [("C02", "ign"), ("C09", "ign"), ("C10", "own")]:
     for n in range(33, 128):
@@ -59,6 +64,8 @@ for pid, own in [("C10", "own"), ("C11", "ign")]:
         add("%s__s__proc_len%d" % (pid.lower(), n), 70, own, "proc::one::<_, %s, %d, 3, 2, false>" % (pid, n))
 add("c10__t__proc_len259", 270, "own", "proc::one::<_, C10, 259, 3, 2, false>")
 add("c11__t__proc_len259", 270, "ign", "proc::one::<_, C11, 259, 3, 2, false>")
+add("c12__q__proc_len12_nt30", 70, "ign", "proc::one::<_, C12, 12, 30, 1, true>")
+add("c04__q__proc_len12_nt30", 70, "ign", "proc::one::<_, C04, 12, 30, 1, true>")
 # C14: 1..=16 vendor sets; only 13-byte packets carry the command
 add("c14__q__proc_len13_nv16", 70, "ign", "proc::one::<_, C14, 13, 1, 16, false>")
 # C15: message type list 0..=3 symbolic, 29/30/31.. exact
@@ -103,8 +110,8 @@ enc("req_get_msgtypes", "enc::ReqGetMessageTypeSupport", "req")
 enc("req_get_vendor", "enc::ReqGetVendorSupport", "req")
 enc("req_resolve_eid", "enc::ReqResolveEndpointId", "req")
 enc("req_allocate", "enc::ReqAllocate", "req")
-for n in range(0, 10):
-    tier = "q" if n in (0, 1, 7, 8) else "t"
+for n in list(range(0, 10)) + [63, 64, 65, 71]:
+    tier = "q" if n in (0, 1, 7, 8, 64) else "t"
     enc("req_routing%d" % n, "enc::ReqRouting<%d>" % n, "req", tier=tier, flags="ok" if n < 8 else "refuse", kfdec=True)
 enc("req_get_routing_table", "enc::ReqGetRoutingTable", "req", kfdec=True)
 enc("req_prepare_discovery", "enc::ReqPrepareDiscovery", "req", kfdec=True)
@@ -128,11 +135,13 @@ for n in range(0, 8):
 
 # vendor_defined: PCI header 2 bytes → body <= 247 fits; IANA header 4 → <= 245
 for n in [0, 1, 4, 16, 64, 128, 200, 246, 247, 248, 249, 252, 300]:
-    tier = "q" if n in (0, 1, 4, 247, 248, 252) else "t"
+    tier = "q" if n in (0, 1, 4, 247, 248, 252, 300) else "t"
     enc("vendor_pci%d" % n, "enc::VendorDefined<0, %d>" % n, "msg", tier=tier, flags="ok" if n <= 247 else "oversize", big=n > 64)
 for n in [0, 1, 4, 16, 64, 128, 200, 244, 245, 246, 250, 300]:
     tier = "q" if n in (0, 1, 4, 245, 246) else "t"
     enc("vendor_iana%d" % n, "enc::VendorDefined<1, %d>" % n, "msg", tier=tier, flags="ok" if n <= 245 else "oversize", big=n > 64)
+enc("vendor_pci_sym16", "enc::VendorSym<0, 16>", "msg", tier="t")
+enc("vendor_iana_sym16", "enc::VendorSym<1, 16>", "msg", tier="t")
 enc("vendor_badfmt4", "enc::VendorDefined<2, 4>", "msg", flags="refuse")
 # the four public packet writers called directly: Raw<W, H, L, R>  (R = through the response half)
 for w, wn in [(0, "ctrl"), (1, "pci"), (2, "iana"), (3, "spdm")]:
